@@ -231,7 +231,7 @@ class CenteredScatterer(Scatterer):
         # x, y, z are center[0], center[1], center[2]: an ordered triple
         bad = center is not None and (
             np.isscalar(center) or not hasattr(center, '__getitem__')
-            or len(center) != 3)
+            or isinstance(center, dict) or len(center) != 3)
         if center is not None and not bad:
             # three numbers, not three lists of numbers
             bad = not all(_is_coordinate(c) for c in center)
